@@ -56,6 +56,16 @@ type Tree struct {
 	BaseRoot  *mast.Root
 	MaxHeight uint8
 	InMemory  bool // created by NewInMemory: no store
+	// Touched: keys successfully inserted (new or new value) or deleted since Base.
+	Touched      map[int]bool
+	HeightAtBase uint8
+}
+
+func (t *Tree) touch(ki int) {
+	if t.Touched == nil {
+		t.Touched = map[int]bool{}
+	}
+	t.Touched[ki] = true
 }
 
 // SavedRoot is a persisted version with the model captured at that time.
@@ -71,6 +81,7 @@ type World struct {
 	Store    *env.RecStore
 	Cache    mast.NodeCache
 	MapCache *env.MapCache // when the cache is harness-owned
+	Counting *env.CountingCache
 	// KeyCompare, when set, overrides the key order given to LoadMast.
 	KeyCompare func(a, b interface{}) (int, error)
 	// WrapMarshal, when set, wraps the marshal function given to LoadMast.
@@ -79,7 +90,12 @@ type World struct {
 
 func NewWorld(cfg Config) *World {
 	w := &World{Cfg: cfg, Pool: cfg.Pool(), Store: env.NewRecStore("mem://verif")}
-	w.Cache, w.MapCache = MakeCache(cfg.Cache)
+	inner, mc := MakeCache(cfg.Cache)
+	w.MapCache = mc
+	if inner != nil {
+		w.Counting = &env.CountingCache{Inner: inner}
+		w.Cache = w.Counting
+	}
 	return w
 }
 
@@ -201,7 +217,7 @@ func (w *World) Load(sr *SavedRoot, store mast.Persist, cache mast.NodeCache, vi
 			return err
 		}
 		r := sr.Root
-		t = &Tree{M: m, Model: sr.Model.Clone(), Base: sr.Model.Clone(), BaseRoot: &r, MaxHeight: m.Height()}
+		t = &Tree{M: m, Model: sr.Model.Clone(), Base: sr.Model.Clone(), BaseRoot: &r, MaxHeight: m.Height(), HeightAtBase: r.Height}
 		return nil
 	})
 	return t, err
@@ -221,6 +237,9 @@ func (w *World) Insert(t *Tree, ki, vn int) error {
 	if err != nil {
 		return fmt.Errorf("Insert(%v,%v) failed: %w", w.Pool[ki], w.Cfg.MakeVal(vn), err)
 	}
+	if old, ok := t.Model[ki]; !ok || old != vn {
+		t.touch(ki)
+	}
 	t.Model[ki] = vn
 	t.noteHeight()
 	return nil
@@ -237,6 +256,7 @@ func (w *World) Delete(t *Tree, ki int) error {
 		return fmt.Errorf("Delete(%v,%v) of a present entry failed: %w", w.Pool[ki], w.Cfg.MakeVal(vn), err)
 	}
 	delete(t.Model, ki)
+	t.touch(ki)
 	return nil
 }
 
@@ -360,6 +380,8 @@ func (w *World) Persist(t *Tree) (*SavedRoot, error) {
 	t.Base = t.Model.Clone()
 	r := copyRoot(*root)
 	t.BaseRoot = &r
+	t.Touched = nil
+	t.HeightAtBase = r.Height
 	return sr, nil
 }
 
@@ -387,6 +409,10 @@ func (w *World) Clone(t *Tree) (*Tree, error) {
 		nt.Base = t.Base.Clone()
 	}
 	nt.BaseRoot = t.BaseRoot
+	nt.HeightAtBase = t.HeightAtBase
+	for k := range t.Touched {
+		nt.touch(k)
+	}
 	return nt, nil
 }
 
